@@ -38,6 +38,7 @@ class Contract:
     defs: Dict[str, str] = field(default_factory=dict)          # named lambdas usable in the clauses
     ghost_args: Dict[str, Dict[str, str]] = field(default_factory=dict)   # callee short name -> {callee ghost name: expression in the caller}
     func_params: Dict[str, List[str]] = field(default_factory=dict)   # function-valued parameter -> builtin names it may be bound to (verified once per choice)
+    merge_except: List[str] = field(default_factory=list)      # if-statements (labels like 'If#2') that still fork when merge_ifs is on
     merge_ifs: bool = False                                    # merge the two branches of an if when both fall through
     ghost_init: Dict[str, str] = field(default_factory=dict)    # initial values of ghost variables (prover's choice; assumed at entry only)
 
